@@ -104,6 +104,9 @@ pub struct AutoConfig {
     /// rest 300 ms later
     pub tail: Vec<u8>,
     pub tail_with_open_ok: usize,
+    /// Queue.Declare requests are answered only once this many are outstanding (then all of them,
+    /// the most recent first)
+    pub declares_together: usize,
     /// stop answering anything (the server goes silent) once this is set
     pub silent: Arc<AtomicBool>,
 }
@@ -122,6 +125,7 @@ pub fn auto_broker(peer: Peer, cfg: AutoConfig, stop: Arc<AtomicBool>, seen: Arc
     let mut confirm_mode: std::collections::HashSet<u16> = Default::default();
     let mut dtag: std::collections::HashMap<u16, u64> = Default::default();
     let mut ctag = 0u32;
+    let mut held_declares: Vec<u16> = Vec::new();
     let mut close_ok_due: Option<Instant> = None;
     let mut next_hb = Instant::now();
     while !stop.load(Ordering::SeqCst) {
@@ -205,6 +209,15 @@ pub fn auto_broker(peer: Peer, cfg: AutoConfig, stop: Arc<AtomicBool>, seen: Arc
                     } else {
                         Some(method(ch, AMQPClass::Confirm(confirm::AMQPMethod::SelectOk(confirm::SelectOk {}))))
                     }
+                }
+                (50, 10) if cfg.declares_together > 1 => {
+                    held_declares.push(ch);
+                    if held_declares.len() >= cfg.declares_together {
+                        for c in held_declares.drain(..).rev() {
+                            peer.push(&method(c, AMQPClass::Queue(queue::AMQPMethod::DeclareOk(queue::DeclareOk { queue: format!("q-{}", c), message_count: c as u32, consumer_count: 1 }))));
+                        }
+                    }
+                    None
                 }
                 (50, 10) => Some(method(ch, AMQPClass::Queue(queue::AMQPMethod::DeclareOk(queue::DeclareOk { queue: format!("q-{}", ch), message_count: ch as u32, consumer_count: 1 })))),
                 (50, 20) => Some(method(ch, AMQPClass::Queue(queue::AMQPMethod::BindOk(queue::BindOk {})))),
